@@ -241,3 +241,110 @@ theorem eager_reduction_data_shape_partial (B S : List Nat) (a : Int) (keep : Bo
 example : npReduceShape ([2] ++ [4, 3]) (eagerReductionAxis (.one 0) 2) false = some ([2] ++ [3]) := by decide
 
 end FV.Props.C06
+
+namespace FV.Props.C06
+open FV.C06
+
+/-- tuple axes: each entry rewritten as `d % ndims - ndims` addresses `B.length +` its normalised position -/
+theorem normAxes_shift (nb nd : Nat) (hnd : 0 < nd) :
+    ∀ (l : List Int) (ks : List Nat), npNormAxes nd l = some ks →
+      npNormAxes (nb + nd) (l.map fun d => d % (nd : Int) - nd) = some (ks.map (· + nb)) := by
+  intro l
+  induction l with
+  | nil => intro ks h; simp [npNormAxes] at h; subst h; simp [npNormAxes]
+  | cons a rest ih =>
+    intro ks h
+    simp only [npNormAxes] at h
+    cases h1 : npNormAxis nd a with
+    | none => simp [h1] at h
+    | some x =>
+      cases h2 : npNormAxes nd rest with
+      | none => simp [h1, h2] at h
+      | some xs =>
+        simp only [h1, h2] at h
+        split at h
+        · simp at h
+        · rename_i hmem
+          simp at h; subst h
+          have e1 := eagerReductionAxis_one nb nd a x hnd h1
+          have e2 := ih xs h2
+          have hm : ¬ (nb + x ∈ xs.map (· + nb)) := by
+            simp only [List.mem_map, not_exists, not_and]
+            intro y hy hxy
+            have : y = x := by omega
+            subst this
+            exact hmem hy
+          simp only [List.map_cons, npNormAxes, e1, e2, hm, if_false]
+          simp [Nat.add_comm]
+
+/-- `axis=None`: the eager rule passes `range(-ndims, 0)` -/
+theorem normAxes_range_shift (nb nd : Nat) :
+    ∀ (js : List Nat), js.Nodup → (∀ j ∈ js, j < nd) →
+      npNormAxes (nb + nd) (js.map fun (j : Nat) => (j : Int) - (nd : Int)) = some (js.map (· + nb)) := by
+  intro js
+  induction js with
+  | nil => intro _ _; simp [npNormAxes]
+  | cons j rest ih =>
+    intro hnd hlt
+    have hj : j < nd := hlt j (by simp)
+    have hrest := ih (List.nodup_cons.mp hnd).2 (fun k hk => hlt k (by simp [hk]))
+    have hnotin : j ∉ rest := (List.nodup_cons.mp hnd).1
+    have e1 : npNormAxis (nb + nd) ((j : Int) - (nd : Int)) = some (nb + j) := by
+      unfold npNormAxis
+      have hneg : ¬ (0 ≤ (j : Int) - (nd : Int)) := by omega
+      have hge : -((nb + nd : Nat) : Int) ≤ (j : Int) - (nd : Int) := by omega
+      simp only [hneg, if_false, hge, if_true]
+      congr 1
+      omega
+    have hm : ¬ (nb + j ∈ rest.map (· + nb)) := by
+      simp only [List.mem_map, not_exists, not_and]
+      intro y hy hxy
+      have : y = j := by omega
+      subst this
+      exact hnotin hy
+    simp only [List.map_cons, npNormAxes, e1, hrest, hm, if_false]
+    simp [Nat.add_comm]
+
+/-- **Eager reductions keep the batch dims, for every axis** (None, int, tuple; negative entries):
+    the array op applied to data of shape `B ++ S` with the axis `eager_reduction_tensor` passes returns
+    `B ++ r`, where `r` is numpy's (= by `findDomain_reduction_sound` the declared) reduced event shape. -/
+theorem eager_reduction_data_shape (B S : List Nat) (axis : Axis) (keep : Bool) (r : List Nat)
+    (hS : S ≠ []) (h : npReduceShape S axis keep = some r) :
+    npReduceShape (B ++ S) (eagerReductionAxis axis S.length) keep = some (B ++ r) := by
+  have hnd : 0 < S.length := List.length_pos_iff.mpr hS
+  have hB : (B ++ S).length = B.length + S.length := by simp
+  cases axis with
+  | one a => exact eager_reduction_data_shape_partial B S a keep r hS h
+  | all =>
+    unfold npReduceShape at h ⊢
+    simp only [eagerReductionAxis, Option.map_some] at h ⊢
+    have hn : npNormAxes (B ++ S).length
+        ((List.range S.length).map fun (i : Nat) => (i : Int) - (S.length : Int))
+        = some ((List.range S.length).map (· + B.length)) := by
+      rw [hB]
+      exact normAxes_range_shift B.length S.length _ List.nodup_range (fun j hj => List.mem_range.mp hj)
+    simp only [hn, Option.map_some]
+    rw [specFilter_eq_reduceFrom]
+    rw [specFilter_eq_reduceFrom] at h
+    simp only [Option.some.injEq] at h ⊢
+    rw [eager_reduction_keeps_batch, h]
+  | many l =>
+    unfold npReduceShape at h ⊢
+    simp only [eagerReductionAxis] at h ⊢
+    cases hn : npNormAxes S.length l with
+    | none => simp [hn] at h
+    | some ks =>
+      have hs : npNormAxes (B ++ S).length (l.map fun d => d % (S.length : Int) - S.length)
+          = some (ks.map (· + B.length)) := by
+        rw [hB]; exact normAxes_shift B.length S.length hnd l ks hn
+      simp only [hn, Option.map_some] at h
+      simp only [hs, Option.map_some]
+      rw [specFilter_eq_reduceFrom]
+      rw [specFilter_eq_reduceFrom] at h
+      simp only [Option.some.injEq] at h ⊢
+      rw [eager_reduction_keeps_batch, h]
+
+example : npReduceShape ([2] ++ [4, 3]) (eagerReductionAxis (.many [-1, 0]) 2) true = some ([2] ++ [1, 1]) := by decide
+example : npReduceShape ([2, 5] ++ [4, 3]) (eagerReductionAxis .all 2) false = some ([2, 5] ++ []) := by decide
+
+end FV.Props.C06
